@@ -313,4 +313,85 @@ theorem dispatch_frame (ca : Ca) (child : Handle) (c : ChildRec) (pl : Payload) 
         simp only [huf, Bool.false_eq_true, if_false]
         (refine ⟨?_, ?_, ?_, ?_, ?_, ?_⟩ <;> first | rfl | trivial | (intro _ _; rfl) | (intro _ _; trivial) | (intro ce h; exact Or.inl h))
 
+/-- What `dispatch` answers, by request kind. -/
+def ReplyFor (ca ca' : Ca) (child : Handle) (c : ChildRec) : Payload → Payload → Prop
+  | .list, rp => ca' = ca ∧ rp = .listResponse (entitlements ca child c)
+  | .issue cls key _ _, rp =>
+    ∃ grant res, rp = .issueResponse cls key grant ∧ (key, cls, child, grant) ∈ ca'.certs ∧
+      lookup ca.classes cls = some res ∧ subset grant c.resources = true ∧ subset grant res = true
+  | .revoke cls key, rp =>
+    rp = .revokeResponse cls key ∧
+      ((lookup ca.classes cls = none ∧ ca' = ca) ∨ c.inUse.any (·.1 == key) = true)
+  | _, _ => False
+
+theorem dispatch_reply (ca : Ca) (child : Handle) (c : ChildRec) (pl rp : Payload) (ca' : Ca)
+    (h : dispatch ca child c pl = (ca', some rp)) : ReplyFor ca ca' child c pl rp := by
+  cases pl with
+  | list =>
+    simp only [dispatch, Prod.mk.injEq, Option.some.injEq] at h
+    exact ⟨h.1.symm, h.2.symm⟩
+  | listResponse x => simp [dispatch] at h
+  | issueResponse x y z => simp [dispatch] at h
+  | revokeResponse x y => simp [dispatch] at h
+  | errorResponse x => simp [dispatch] at h
+  | issue cls key limit csrOk =>
+    simp only [dispatch] at h
+    cases hc : lookup ca.classes cls with
+    | none => simp [hc] at h
+    | some res =>
+      simp only [hc] at h
+      cases hcond : (!csrOk || (inter c.resources res).isEmpty ||
+          !(subset limit (inter c.resources res))) with
+      | true => simp [hcond] at h
+      | false =>
+        simp only [hcond, Bool.false_eq_true, if_false, Prod.mk.injEq, Option.some.injEq] at h
+        obtain ⟨h1, h2⟩ := h
+        subst h1 h2
+        have hlim : subset limit (inter c.resources res) = true := by
+          simp only [Bool.or_eq_false_iff, Bool.not_eq_false'] at hcond
+          exact hcond.2
+        have hir : subset (inter c.resources res) res = true := by
+          rw [subset_iff]; intro x hx
+          simp only [inter, List.mem_filter, List.contains_iff_mem] at hx
+          exact hx.2
+        refine ⟨_, res, rfl, List.mem_cons_self, hc, ?_, ?_⟩
+        · by_cases hl : limit.isEmpty = true
+          · simp only [hl, if_true]; exact subset_inter_left _ _
+          · simp only [hl]; exact subset_trans _ _ _ hlim (subset_inter_left _ _)
+        · by_cases hl : limit.isEmpty = true
+          · simp only [hl, if_true]; exact hir
+          · simp only [hl]; exact subset_trans _ _ _ hlim hir
+  | revoke cls key =>
+    simp only [dispatch] at h
+    cases hc : lookup ca.classes cls with
+    | none =>
+      simp only [hc, Prod.mk.injEq, Option.some.injEq] at h
+      exact ⟨h.2.symm, Or.inl ⟨hc, h.1.symm⟩⟩
+    | some res =>
+      simp only [hc] at h
+      cases hu : c.inUse.any (·.1 == key) with
+      | false => simp [hu] at h
+      | true =>
+        simp only [hu, if_true, Prod.mk.injEq, Option.some.injEq] at h
+        exact ⟨h.2.symm, Or.inr hu⟩
+
+/-- What an accepted delta consists of. -/
+theorem delta_accepted (p : Publisher) (els : List PElem) (h : els.findSome? (elemError p) = none) :
+    ∀ e ∈ els, e.uri.under p.base = true ∧
+      (∀ u hh, e = .publish u hh → hasUri p.files u = false) ∧
+      (∀ u old new, e = .update u old new → hasFile p.files u old = true) ∧
+      (∀ u old, e = .withdraw u old → hasFile p.files u old = true) := by
+  intro e he
+  have hn := findSome_none _ _ h e he
+  refine ⟨elemError_none_under p e hn, ?_, ?_, ?_⟩
+  · intro u hh heq; subst heq
+    simp only [elemError] at hn
+    cases h1 : Uri.under u p.base <;> cases h2 : hasUri p.files u <;> simp_all
+  · intro u old new heq; subst heq
+    simp only [elemError] at hn
+    cases h1 : Uri.under u p.base <;> cases h2 : hasFile p.files u old <;> simp_all
+  · intro u old heq; subst heq
+    simp only [elemError] at hn
+    cases h1 : Uri.under u p.base <;> cases h2 : hasFile p.files u old <;> simp_all
+
 end KM.Proto
